@@ -16,7 +16,7 @@
 From Coq Require Import ZArith QArith List Bool Lia Lqa Arith Permutation.
 From VL Require Import Prelude.PyDict Prelude.PyNum Prelude.PyList Prelude.PySeq Prelude.PyTie Model.GetNBest Model.QuotaDistributor
      Model.Threshold Proofs.QBool_tac Proofs.GetNBest_proofs Proofs.QOrd Proofs.PySeq_proofs Proofs.Threshold_proofs.
-From VL Require Import Props.GenTie_Openlist Props.GenTie_TieBreak.
+From VL Require Import Proofs.PyTie_proofs Props.GenTie_Openlist.
 From VL Require Gen.Openlist Gen.OpenlistEval.
 Import ListNotations.
 Close Scope Q_scope.
